@@ -2,10 +2,10 @@
 //!
 //!   C10.earcut <PG>                   => verts <n> <num…> idx <m> <i…> tris <t> <TR…>…
 //!   C10.cdt <PG|MPG>                  => ct <ok n TR…|err> co <ok n TR…|err> un <ok n TR…|err>
-//!   C10.mono <PG|MPG> Q x0 y0 nx ny   => n <k> (top <pts> bot <pts> poly <k> <ring>…)* pi <bits> mi <bits> pos (<chars>)*
+//!   C10.mono <PG|MPG> Q x0 y0 step nx ny => n <k> (top <pts> bot <pts> poly <k> <ring>…)* pi <bits> mi <bits> pos (<chars>)*
 //!   C10.stitch <earcut|cdt> <PG|MPG>  => tris <ok n TR…|err> res <ok <MPG…>|err>
 //!
-//! `Q x0 y0 nx ny`: the query lattice `(x0 + i/2, y0 + j/2)`, `i < nx`, `j < ny`, row-major in
+//! `Q x0 y0 step nx ny`: the query lattice `(x0 + i*step, y0 + j*step)` (step = half a grid unit), `i < nx`, `j < ny`, row-major in
 //! `j` then `i`. `pi` = `polygon.intersects(c)`, `mi` = `MonotonicPolygons.intersects(c)` (one
 //! `0/1` character per lattice point), `pos` = per piece `coordinate_position` (`I`/`B`/`O`).
 use crate::proto::{self, Toks, R};
@@ -117,6 +117,38 @@ fn special_polygon(rng: &mut Rng) -> Polygon<f64> {
     }
 }
 
+/// square / notched outer ring with 1..3 small holes placed in separate 2x2 blocks; blocks may
+/// start at the shell (hole touching the shell) and big shapes reach the neighbouring block
+/// (holes touching each other); whatever is invalid is skipped by the driver
+fn holey_polygon(rng: &mut Rng) -> Polygon<f64> {
+    let k = 6i64;
+    let ext: Vec<(i64, i64)> = match rng.below(4) {
+        0 => vec![(0, 0), (3, 0), (k, 0), (k, 3), (k, k), (3, k), (0, k), (0, 3)],
+        1 => vec![(0, 0), (k, 0), (k, k), (3, k), (3, k - 1), (0, k - 1)],
+        _ => vec![(0, 0), (k, 0), (k, k), (0, k)],
+    };
+    let shapes: [&[(i64, i64)]; 7] = [
+        &[(0, 0), (1, 0), (1, 1), (0, 1)],
+        &[(0, 0), (1, 0), (0, 1)],
+        &[(1, 0), (2, 1), (1, 2), (0, 1)],
+        &[(0, 0), (2, 1), (0, 2)],
+        &[(0, 0), (2, 0), (2, 2)],
+        &[(0, 0), (1, 0), (1, 1), (2, 1), (2, 2), (0, 2)],
+        &[(0, 1), (2, 0), (2, 2)],
+    ];
+    let base = if rng.chance(1, 4) { 0 } else { 1 };
+    let mut blocks = vec![(base, base), (base + 2, base), (base, base + 2), (base + 2, base + 2)];
+    rng.shuffle(&mut blocks);
+    let n = rng.range(1, 3) as usize;
+    let mut holes: Vec<Vec<(i64, i64)>> = vec![];
+    for b in blocks.iter().take(n) {
+        let sh = *rng.pick(&shapes);
+        holes.push(sh.iter().map(|&(x, y)| (x + b.0, y + b.1)).collect());
+    }
+    let hs: Vec<&[(i64, i64)]> = holes.iter().map(|h| &h[..]).collect();
+    poly_from(&ext, &hs)
+}
+
 fn rot_ring(rng: &mut Rng, r: &LineString<f64>) -> LineString<f64> {
     if r.0.len() < 4 {
         return r.clone();
@@ -134,8 +166,9 @@ fn rot_ring(rng: &mut Rng, r: &LineString<f64>) -> LineString<f64> {
 
 fn gen_poly(rng: &mut Rng) -> Polygon<f64> {
     let k = *rng.pick(&[3i64, 4, 4, 5, 6]);
-    if rng.chance(1, 4) {
-        let p = special_polygon(rng);
+    let pick = rng.below(4);
+    if pick < 2 {
+        let p = if pick == 0 { special_polygon(rng) } else { holey_polygon(rng) };
         Polygon::new(rot_ring(rng, p.exterior()), p.interiors().iter().map(|h| rot_ring(rng, h)).collect())
     } else {
         gen_polygon(rng, k)
